@@ -16,7 +16,7 @@ import (
 func init() {
 	register(&PropSpec{
 		ID:       "C19",
-		Patterns: []string{"./pkg/config/v2", "./pkg/configmanager", "./pkg/upstream/cluster", "./pkg/filter/stream/..."},
+		Patterns: []string{"./pkg/config/v2", "./pkg/configmanager", "./pkg/upstream/cluster", "./pkg/filter/stream/...", "./pkg/mosn"},
 		Explanation: "(R1) mirror pairs: for every type of pkg/config/v2 with both MarshalJSON and UnmarshalJSON, the relation {derived field <- shadow field} extracted from the SSA of UnmarshalJSON and the relation {shadow field <- derived field} extracted from MarshalJSON must cover the same (derived, shadow) pairs, and every `json:\"-\"` field of the type must appear in both or be listed runtime-only with a reason. " +
 			"(R2) tag lint over the type graph reachable from the dumped roots: no two fields of one struct (after embedding, at the winning depth) share a JSON key (encoding/json would drop both silently), no struct inherits a promoted MarshalJSON/UnmarshalJSON from an embedded field without defining its own (the promoted method would hijack the outer encoding). " +
 			"(R3) the persisted dump reassembles every part of the effective model: transferConfig reads every field of effectiveConfig and stores listeners, routers (with their original path), clusters, cluster path and extends into the MOSNConfig it marshals. " +
@@ -50,6 +50,8 @@ func runC19(c *Ctx) {
 	c.Rule("C19.R4", "producing the persisted dump writes only freshly allocated memory", 5)
 	c.Rule("C19.R9", "stream filters never write into a route's per_filter_config (the map the dump marshals)", 20)
 	defer c19RouteConfigReadOnly(c)
+	c.Rule("C19.R10", "a dump is decoded into an empty model (no pre-filled target)", 2)
+	defer c19DecodeIntoZeroValue(c)
 	c.NotDecided = append(c.NotDecided, "value-level equivalence of load(dump(load(x))) and load(x): defaults, omitempty vs explicit zero, duration/byte-size formatting (mosn.io/api)", "the shipped sample configurations (needs running the loader)", "per-filter free-form config maps")
 	c.Assumptions = append(c.Assumptions, "encoding/json field resolution rules (shallowest depth wins; ties at the same depth drop the key)", "helper conversions named in a pair (metadataToConfig/configToMetadata, duration wrappers) are inverse of each other")
 
